@@ -47,6 +47,8 @@ def random_record(rng, n=None, nfeat=None, alphabet="ACGT"):
 def _exc(fn):
     try:
         return fn(), ""
+    except TypeError as ex:       # (a subclass of TypeError is a TypeError)
+        return None, "TypeError"
     except BaseException as ex:  # noqa
         return None, type(ex).__name__
 
